@@ -89,7 +89,16 @@ type outcome struct {
 	err     error
 	panicv  string
 	created common.Address
+	// the transfer fees the EVM declares refundable after the run, read the way
+	// app/state_transition.go reads them: tx.Gas += vm.RefundFee() when the invocation
+	// succeeded, tx.Gas += vm.RefundAllFee() when it failed
+	refund    uint64
+	refundFee uint64 // RefundFee()
+	refundAll uint64 // RefundAllFee()
 }
+
+// handedBack is the gas the caller of the top frame ends up with again.
+func (o outcome) handedBack() uint64 { return o.left + o.refund }
 
 func (o outcome) errClass() string {
 	switch {
@@ -121,20 +130,36 @@ func invoke(st *state.StateDB, cs callSpec) (o outcome) {
 	if cs.gas == 0 {
 		panic("harness: gas limit 0 means unlimited in runtime.Config")
 	}
+	if cfg.Value == nil {
+		cfg.Value = new(big.Int)
+		cs.value = cfg.Value
+	}
 	defer func() {
 		if r := recover(); r != nil {
 			o.panicv = fmt.Sprint(r)
 		}
 	}()
+	// what vm/runtime's Call / TokenCall / Create do (runtime.NewEnv + the EVM entry
+	// point), spelled out because they drop the EVM, and with it the fee lists
+	vmenv := runtime.NewEnv(cfg)
 	switch cs.mode {
 	case "call":
-		o.ret, o.left, o.err = runtime.Call(cs.to, cs.input, cfg)
+		sender := st.GetOrNewStateObject(cs.origin)
+		o.ret, o.left, _, o.err = vmenv.Call(sender, cs.to, common.EmptyAddress, cs.input, cs.gas, cs.value)
 	case "tokencall":
-		o.ret, o.left, o.err = runtime.TokenCall(cs.to, cs.input, cfg, cs.token)
+		vmenv.Token = cs.token
+		sender := st.GetOrNewStateObject(cs.origin)
+		o.ret, o.left, _, o.err = vmenv.Call(sender, cs.to, cs.token, cs.input, cs.gas, cs.value)
 	case "create":
-		o.ret, o.created, o.left, o.err = runtime.Create(cs.code, cfg)
+		o.ret, o.created, o.left, o.err = vmenv.Create(evm.AccountRef(cs.origin), cs.code, cs.gas, cs.value)
 	default:
 		panic("harness: unknown mode " + cs.mode)
+	}
+	o.refundFee, o.refundAll = vmenv.RefundFee(), vmenv.RefundAllFee()
+	if o.err == nil {
+		o.refund = o.refundFee
+	} else {
+		o.refund = o.refundAll
 	}
 	return
 }
